@@ -14,6 +14,7 @@ import os
 import sys
 import time
 import traceback
+from pathlib import Path
 
 from . import common
 from .common import Run, VERIF
@@ -37,13 +38,90 @@ class Ctx:
         return self._driver
 
     def budget(self, quick: int, thorough: int) -> int:
-        b = thorough if (self.thorough or self.widen) else quick
+        b = thorough if self.thorough else (min(thorough, quick * 3) if self.widen else quick)
         scale = float(os.environ.get("VERIF_BUDGET_SCALE", "1"))
         return max(1, int(b * scale))
 
     def corr_fail(self, name: str, case, impl, model) -> None:
         if len(self.corr_failures) < 50:
             self.corr_failures.append({"correspondence": name, "case": case, "impl": impl, "model": model})
+
+
+def salvage(prop: str, idx: dict, log: str, theorems: dict):
+    """When `lake build` fails ONLY inside `_counterexample` theorems / examples of this property's Props file, re-check the file
+    with those declarations removed.  Returns ({theorem: axioms}, [dropped theorem names]) or None when anything else is broken."""
+    import re
+    import subprocess
+    from . import lean
+    from .common import LEAN
+    mods = idx.get("modules", [f"Pog.Props.{prop}"])
+    if len(mods) != 1:
+        return None
+    rel = Path("Pog") / "Props" / f"{prop}.lean"
+    errlines = {}
+    for m in re.finditer(r"error: ([^\s:]+\.lean):(\d+):\d+", log):
+        errlines.setdefault(m.group(1), set()).add(int(m.group(2)))
+    if not errlines or set(errlines) - {str(rel)}:
+        return None   # an error in a model / lemma / table file: genuinely broken
+    src = (LEAN / rel).read_text().split("\n")
+    # top-level declarations start at column 0 with one of these keywords (doc comments/attributes attach to the next one)
+    starts = [i for i, l in enumerate(src) if re.match(r"(theorem|example|lemma|def|abbrev|instance|structure|inductive|namespace|end|open|section|/--|@\[)", l)]
+    starts.append(len(src))
+
+    def block_of(line_no: int):
+        i = line_no - 1
+        b = max(x for x in starts if x <= i)
+        # walk back over a preceding doc comment / attribute line belonging to this declaration
+        e = min(x for x in starts if x > i)
+        return b, e
+    drop_ranges, dropped = [], []
+    for ln in sorted(errlines[str(rel)]):
+        b, e = block_of(ln)
+        head = src[b]
+        k = b
+        while not re.match(r"(theorem|example)", src[k]) and k + 1 < e:
+            k += 1
+        head = src[k]
+        m = re.match(r"theorem\s+([A-Za-z0-9_']+)", head)
+        if m:
+            name = f"Pog.{prop}.{m.group(1)}"
+            if theorems.get(name) != "counterexample":
+                return None
+            if name not in dropped:
+                dropped.append(name)
+        elif not head.startswith("example"):
+            return None
+        # extend to the end of this theorem/example (next top-level start after k)
+        e2 = min(x for x in starts if x > k)
+        # a doc comment / attribute immediately above belongs to the dropped declaration
+        while True:
+            prev = [x for x in starts if x < b]
+            if prev and re.match(r"(/--|@\[)", src[max(prev)]):
+                b = max(prev)
+            else:
+                break
+        drop_ranges.append((b, e2))
+    keep = [l for i, l in enumerate(src) if not any(b <= i < e for b, e in drop_ranges)]
+    audit_dir = LEAN / ".audit"
+    audit_dir.mkdir(exist_ok=True)
+    tmp = audit_dir / f"Salvage_{prop}.lean"
+    rest = [t for t in theorems if t not in dropped]
+    tmp.write_text("\n".join(keep) + "\n" + "\n".join(f"#print axioms {t}" for t in rest) + "\n")
+    with lean.LakeLock():
+        p = subprocess.run(["lake", "env", "lean", str(tmp)], cwd=LEAN, capture_output=True, text=True, timeout=1200)
+    out = p.stdout + p.stderr
+    if p.returncode != 0 or re.search(r"\berror\b", out):
+        return None
+    res = {}
+    for t in rest:
+        m = re.search(r"'" + re.escape(t) + r"' depends on axioms: \[([^\]]*)\]", out)
+        if m:
+            res[t] = [a.strip() for a in m.group(1).replace("\n", " ").split(",") if a.strip()]
+        elif re.search(r"'" + re.escape(t) + r"' does not depend on any axioms", out):
+            res[t] = []
+        else:
+            res[t] = ["<missing>"]
+    return res, dropped
 
 
 def prove(run: Run, ctx: Ctx, prop: str) -> None:
@@ -64,11 +142,32 @@ def prove(run: Run, ctx: Ctx, prop: str) -> None:
     th_report = {}
     if not ok:
         errs = [l for l in log.splitlines() if "error" in l.lower()][:20]
-        ctx.proof_failures.append("lake build failed: " + " | ".join(errs)[:2000])
         run.cov["build_log_tail"] = log[-3000:]
-        # try to find out which theorems still check: audit needs compiled imports, so skip
-        for t, kind in theorems.items():
-            th_report[t] = {"kind": kind, "status": "build-failed"}
+        salvaged = salvage(prop, idx, log, theorems)
+        if salvaged is not None:
+            # Only `_counterexample` theorems (Lean witnesses of recorded findings) stopped checking: the defect they exhibit is
+            # gone from the model's tables/definitions.  That is not a broken obligation of the property; the remaining theorems
+            # were re-checked in a copy of the Props file with those declarations removed.
+            axioms, dropped = salvaged
+            run.notes.append("counterexample theorems no longer hold (recorded finding fixed?): " + ", ".join(dropped))
+            run.cov["counterexamples_no_longer_holding"] = dropped
+            for t, kind in theorems.items():
+                if t in dropped:
+                    th_report[t] = {"kind": kind, "status": "no-longer-holds"}
+                    discharged += 1   # not an obligation of the property
+                    continue
+                ax = axioms.get(t, ["<missing>"])
+                bad = [a for a in ax if a not in lean.ALLOWED_AXIOMS]
+                if bad:
+                    ctx.proof_failures.append(f"theorem {t}: {'missing from build' if bad == ['<missing>'] else 'uses axioms ' + ','.join(bad)}")
+                    th_report[t] = {"kind": kind, "status": "failed", "axioms": ax}
+                else:
+                    discharged += 1
+                    th_report[t] = {"kind": kind, "status": "proved", "axioms": ax}
+        else:
+            ctx.proof_failures.append("lake build failed: " + " | ".join(errs)[:2000])
+            for t, kind in theorems.items():
+                th_report[t] = {"kind": kind, "status": "build-failed"}
     else:
         axioms, out = lean.audit(prop, list(theorems), modules)
         for t, kind in theorems.items():
